@@ -46,6 +46,31 @@ def kf1(mgr, run_order, shadow, runner):
     return mgrmon.classify_kf1(mgr, run_order, info, mgrmon.task_kinds(shadow))
 
 
+def kf1_premature(mgr, run_order, shadow, runner, assigned_path):
+    """KF1 surfacing as an exception: the task that raised (the last run event) was evaluated BEFORE a
+    triggered task that truly produces one of its inputs (so it saw a stale input), and every such
+    would-be inversion lies inside one structural cycle.  The run stopped at the exception, so the
+    producers that had not run yet are appended to the observed order for the inversion analysis."""
+    from checks import c02
+    import xdeps.refs as R
+    if not run_order:
+        return False, "no task ran", []
+    info = mgrmon.writers_and_reads(shadow, runner)
+    raising = run_order[-1]
+    if raising not in info:
+        return False, "raising task unknown to the shadow", []
+    try:
+        triggered = c02.oracle_trigger(mgr, runner.mkref(assigned_path), R)
+    except Exception as exc:
+        return False, "trigger set not computable: %s" % exc, []
+    ran = set(run_order)
+    pending = [p for p in info if p in triggered and p not in ran
+               and any(mgrmon._related(w, r) for w in info[p][0] for r in info[raising][1])]
+    if not pending:
+        return False, "no pending producer of the raising task", []
+    return mgrmon.classify_kf1(mgr, list(run_order) + pending, info, mgrmon.task_kinds(shadow))
+
+
 # ---- KF5: computed key directly on a top-level container --------------------------
 
 def _toplevel_computed_reads(term):
@@ -74,5 +99,29 @@ def kf5(shadow, op, mismatched_texts):
                 hit = True
                 break
         if not hit:
+            return False
+    return True
+
+
+# ---- KF6: LinearKnob does not declare the containers enclosing its targets ----------
+
+def kf6(shadow, run_order, mismatched_texts):
+    """A knob ran in this step, and every stale location has, in its true upstream closure (itself
+    included), a definition that reads -- as a whole or through a computed key -- a container that
+    strictly encloses a target of a knob that ran."""
+    ran = [str(x) for x in run_order]
+    targets = [t for name, kb in shadow.knobs.items() if name in ran for t in kb["targets"]]
+    if not targets:
+        return False
+    by_text = {shadow.ck_text(ck): ck for ck in shadow.locations()}
+
+    def encloses_target(r):
+        return any(len(r) < len(t) and tuple(t[:len(r)]) == tuple(r) for t in targets)
+
+    for text in mismatched_texts:
+        ck = by_text.get(text)
+        if ck is None:
+            return False
+        if not any(encloses_target(r) for up in shadow.true_reads_closure(ck) for r in shadow.reads(up)):
             return False
     return True
